@@ -31,6 +31,8 @@ def cases(tier):
     out = []
     ml = 44 if tier == "quick" else 52
     ts = [t for t in corpus.t_seqs(1, 2, corpus.T_LITS, max_len=ml) if corpus.has_markup(t)]
+    # + tokens spanning 2-3 template slices / templated whitespace (no separating spaces)
+    ts = sorted(set(ts) | set(corpus.span_templates(3)), key=lambda s: (len(s), s))
     if tier == "thorough":
         s = set(ts)
         for t in ts:
